@@ -124,15 +124,14 @@ pub fn window_weights(win: &Window, len: usize) -> Vec<f32> {
     }
 }
 
-/// Quantizes and fingerprints the window function for caching.
+/// Fingerprints the window function for caching.
+///
+/// Two windows that can yield different weights must never share a
+/// fingerprint, so the exact bit pattern of the parameter is used.
 fn fingerprint_window(w: &Window) -> u64 {
     match *w {
         Window::Rectangle => 0x01_00_00_00_00_00_00_00u64,
-        Window::Tukey { alpha } => {
-            let qalpha = (alpha * 65535.0) as u64;
-            assert!(qalpha < 65536, "alpha is larger than 1");
-            0x02_00_00_00_00_00_00_00u64 + qalpha
-        }
+        Window::Tukey { alpha } => 0x02_00_00_00_00_00_00_00u64 + u64::from(alpha.to_bits()),
     }
 }
 
